@@ -145,6 +145,18 @@ func (r *Report) finish(verif string) int {
 	if err != nil {
 		r.failf("known findings file unreadable: %v", err)
 	}
+	if dump := os.Getenv("VERIF_DUMP_FINDINGS"); dump != "" {
+		// development aid (verif dump-findings): list every violated obligation as a candidate finding line; judge nothing
+		f, _ := os.Create(dump)
+		enc := json.NewEncoder(f)
+		enc.SetEscapeHTML(false)
+		for _, o := range r.Obs {
+			if o.Status == Violated {
+				enc.Encode(Finding{Property: r.Prop, Rule: o.Rule, Construct: o.Key, What: o.Why})
+			}
+		}
+		f.Close()
+	}
 	var viol, und, kn []Ob
 	matched := map[string]bool{}
 	nd := 0
